@@ -169,10 +169,29 @@ func init() {
 		// working set has been filled with cacheable responses of a long lifetime, at most S entries may still be alive
 		if c.Want("live-entries-after-gc") && c.Shard == 1%c.NShards {
 			st := c.Stat("live-entries-after-gc", "enumeration")
-			st.Bounds = "sizes {8, 16, 100}: 6S+40 keys each looked up and filled with a cacheable 2 KiB response (lifetime 1 h), then two garbage collections: entries not yet finalized <= S"
-			for _, S := range []int{8, 16, 100} {
+			st.Bounds = "sizes {8, 16, 100} without store, sizes {8, 16} with a store that works / whose writes fail / whose reads fail: 6S+40 keys each looked up and filled with a cacheable 2 KiB response (lifetime 1 h), then two garbage collections: entries not yet finalized <= S"
+			type gcCase struct {
+				S     int
+				store string // "", "ok", "set-fails", "get-fails"
+			}
+			cases := []gcCase{{8, ""}, {16, ""}, {100, ""}, {8, "ok"}, {8, "set-fails"}, {16, "set-fails"}, {8, "get-fails"}}
+			for _, gc := range cases {
+				S := gc.S
 				cache.VerifFreshRegistries()
-				cache.ResetDispatchers([]config.CacheConfig{{Name: "c", Size: S, HitForPass: "5m"}})
+				cc := config.CacheConfig{Name: "c", Size: S, HitForPass: "5m"}
+				if gc.store != "" {
+					fs := env.NewFaultStore()
+					mode := gc.store
+					fs.Menu = func(op string, key []byte) []env.Fault {
+						if (mode == "set-fails" && op == "set") || (mode == "get-fails" && op == "get") {
+							return []env.Fault{{Name: "error", Err: env.ErrInjected}}
+						}
+						return nil
+					}
+					fs.Register("fault://c11gc")
+					cc.Store = "fault://c11gc"
+				}
+				cache.ResetDispatchers([]config.CacheConfig{cc})
 				var finalized int64
 				n := 6*S + 40
 				func() {
@@ -195,7 +214,7 @@ func init() {
 				}
 				st.Execs++
 				if live > int64(S)+2 {
-					c.Violation("live-entries-after-gc", "evicted-entries-stay-in-memory", fmt.Sprintf("size %d: of %d entries created %d are still alive after garbage collection (the cache may hold %d)", S, n, live, S), nil, map[string]int{"size": S}, nil)
+					c.Violation("live-entries-after-gc", "evicted-entries-stay-in-memory", fmt.Sprintf("size %d, store %q: of %d entries created %d are still alive after garbage collection (the cache may hold %d)", S, gc.store, n, live, S), nil, map[string]interface{}{"size": S, "store": gc.store}, nil)
 				}
 			}
 			st.States, st.Transitions, st.Nontrivial = st.Execs, st.Execs, st.Execs
